@@ -1908,6 +1908,7 @@ func (db *DatabaseCollectionWithUser) getResyncedDocument(ctx context.Context, d
 
 	// Run the sync fn over each current/leaf revision, in case there are conflicts:
 	changed := 0
+	leafChannelsChanged := false
 	doc.History.forEachLeaf(func(rev *RevInfo) {
 		bodyBytes, _, err := db.get1xRevFromDoc(ctx, doc, rev.ID, false)
 		if err != nil {
@@ -1928,6 +1929,10 @@ func (db *DatabaseCollectionWithUser) getResyncedDocument(ctx context.Context, d
 			base.WarnfCtx(ctx, "Error calling sync() on doc %q: %v", base.UD(docid), err)
 			access = nil
 			channels = nil
+		}
+		if rev.ID != doc.GetRevTreeID() && !channels.Equals(rev.Channels) {
+			// a non-winning leaf's channels are persisted in the revision tree only
+			leafChannelsChanged = true
 		}
 		rev.Channels = channels
 
@@ -1954,7 +1959,7 @@ func (db *DatabaseCollectionWithUser) getResyncedDocument(ctx context.Context, d
 			}
 		}
 	})
-	if changed == 0 && !forceUpdate {
+	if changed == 0 && !leafChannelsChanged && !forceUpdate {
 		return nil, nil, base.ErrUpdateCancel
 	}
 	doc.SetCrc32cUserXattrHash()
